@@ -12,6 +12,12 @@ through DefaultDatabaseLoadingContext twice and WorkflowBuilder (deep copy); eac
 the original (own comparator), persistent ids are checked, an id() reachability scan over mutable containers checks
 separation (and is compared with the model's prediction of the shared fields), then one load is mutated everywhere and
 the other loads and a fresh load are re-checked.
+Part 4 (module PersistenceSave): CONCURRENT saves of shared persistable entities - token DAGs (one inner token under two
+sibling ListToken / ObjectToken / JobToken), workflows whose steps share Target / DeploymentConfig / FilterConfig objects,
+a workflow saved by two tasks.  TLC checks the save protocol (guard, wait, ids read after the gather) on every shape and
+emits the shapes; the driver saves real objects under a gated database, enumerates the completion orders of the database
+calls and the arrival of the second caller, has every recorded trace explained and judged by Trace_PersistenceSave, and
+loads what was saved (see vh/sut/persist_save.py).
 """
 from __future__ import annotations
 
@@ -306,6 +312,178 @@ class Checker:
                  "%s: after mutating load L1, %s (%s) sees %s changed" % (label, n, where, attr))
 
 
+SAVE_CAP_QUICK, SAVE_CAP_THOROUGH = 12, 60        # schedules per (shape, variant)
+SAVE_INVS = ["SaveTypeOK", "SaveReturnsWithId", "TopReturnsWithId", "RefsResolved", "OneRow", "SavedAll"]
+
+
+def _save_cfg(waiting, guard, family, init, nxt, invs):
+    return ('CONSTANTS Waiting = "%s"  Guard = "%s"  SFamily = "%s"\nINIT %s\nNEXT %s\n' % (waiting, guard, family, init, nxt)
+            + "".join("INVARIANT %s\n" % i for i in invs))
+
+
+def _save_model(ctx):
+    """Part 4, model side: the save protocol on every shape of the family (quick: database completions at quiescence,
+    thorough: every interleaving), deadlock check on (every caller returns); the same run emits the shapes."""
+    r = ctx.tlc("Persistence", "MC_PersistenceSave", "save.cfg", timeout=2400, deadlock=True, coverage=not ctx.quick,
+                files={"save.cfg": _save_cfg("always", "always", ctx.pick("quick", "full"), "GenInitS", ctx.pick("NextQ", "Next"), SAVE_INVS)})
+    ctx.require(r.ok, "PersistenceSave (code as it is) violates %s / %s: specification error\n%s" % (r.violated, r.error, r.stdout[-800:]))
+    shapes = [x["saveshape"] for x in r.printed_json() if isinstance(x, dict) and "saveshape" in x]
+    ctx.require(len(shapes) >= 60 and r.distinct >= 5000, "suspiciously small save model: %d shapes, %d states" % (len(shapes), r.distinct))
+    if not ctx.quick:
+        ctx.require_coverage(r, ["DoEnter", "DoStageDone", "DoDbComplete", "DoWake", "DoStart", "DoTopReturn"])
+        for what, waiting, guard, inv in (("second caller of save() returns at once", "never", "always", "RefsResolved"),
+                                          ("second caller of save() returns at once", "never", "always", "SaveReturnsWithId"),
+                                          ("no _saving guard: the entity is saved again", "always", "never", "OneRow")):
+            v = ctx.tlc("Persistence", "MC_PersistenceSave", "defect.cfg", timeout=1800, count=False, workers=1,
+                        files={"defect.cfg": _save_cfg(waiting, guard, "quick", "Init", "Next", [inv])})
+            ctx.require(v.error == "invariant" and v.trace, "defect model (%s) does not break %s: vacuous property" % (what, inv))
+            ctx.extra.setdefault("defect_model_counterexamples", {})["%s / %s" % (what, inv)] = [
+                dict(action=s["action"], **s["context"]) for s in v.trace[1:]]
+    shapes.sort(key=lambda sh: json.dumps(sh, sort_keys=True))
+    return shapes
+
+
+class ConcurrentSaver:
+    """Part 4, implementation side: one shape, one variant (classes dealt to the roles), every schedule (capped)."""
+
+    def __init__(self, ctx, sf):
+        from vh.sut import persist_save as S
+        self.S, self.ctx, self.sf, self.db = S, ctx, sf, sf.database
+        self.gdb = S.GatedDb(sf.database)
+        self.serial = 0
+        self.port_id = self.wf_id = None
+        self.pending = []          # (trace, detail, classes) waiting for the batch verdict of TLC
+        self.ck = Checker(ctx, sf)
+
+    async def setup(self):
+        from streamflow.core.workflow import Workflow
+        wf = Workflow(context=self.sf, config={}, name="c08-concurrent-saves")
+        port = wf.create_port(name="tokens")
+        await wf.save(self.db)
+        self.port_id, self.wf_id = port.persistent_id, wf.persistent_id
+        self.gdb.install()
+
+    def teardown(self):
+        self.gdb.uninstall()
+
+    def build(self, shape, variant):
+        self.serial += 1
+        if shape["name"] == "tokens":
+            return self.S.build_tokens(self.sf, shape, self.serial, variant, self.port_id, self.wf_id)
+        return self.S.build_workflow(self.sf, shape, self.serial)
+
+    async def one(self, shape, variant, choices):
+        """Build fresh objects, save them under the schedule `choices`, check the outcome; returns the widths met."""
+        from streamflow.persistence.loading_context import DefaultDatabaseLoadingContext
+        ctx, S = self.ctx, self.S
+        try:
+            b = self.build(shape, variant)
+            orig = W.snapshot(b.root)
+        except Exception as e:
+            ctx.require(False, "cannot instantiate save shape %s: %r" % (json.dumps(shape, sort_keys=True), e))
+        run = S.Run(self.gdb, b, choices)
+        await run.execute()
+        fam = shape["name"]
+        classes = dict(b.cls)
+        detail = {"concurrent": True, "shape": shape, "variant": variant, "choices": list(choices), "classes": classes,
+                  "schedule": [[e["n"], e.get("node", e.get("t")), e.get("refs")] for e in run.events if e["n"] != "End"]}
+        label = "%s %s (classes %s)" % (fam, json.dumps(shape["reads"], sort_keys=True), classes)
+        self.pending.append((S.trace_of(run), detail, classes))
+        bad = False
+        for where, e in run.errors:
+            bad = True
+            ctx.violation("raise:concurrent-save:%s:%s" % (fam, type(e).__name__), dict(detail, err=repr(e), where=where),
+                          "%s: concurrent save raised %r in %s" % (label, e, where))
+        if run.stuck:
+            bad = True
+            ctx.violation("hang:concurrent-save:%s" % fam, detail, "%s: no database call is pending and save() has not returned" % label)
+        for n, o in b.objs.items():
+            if n in b.table and getattr(o, "persistent_id", None) is None and not bad:
+                bad = True
+                ctx.violation("concurrent-save:entity-without-id:%s:%s" % (fam, classes[n]), dict(detail, node=n),
+                              "%s: every save() has returned and %s %s has no persistent id" % (label, classes[n], n))
+        if bad or b.root.persistent_id is None:
+            return run.widths
+        for k in (1, 2):
+            try:
+                loaded = await b.load(DefaultDatabaseLoadingContext(self.db))
+            except Exception as e:
+                ctx.violation("raise:load-after-concurrent-save:%s:%s" % (fam, type(e).__name__), dict(detail, err=repr(e)),
+                              "%s: load #%d of what the concurrent save stored raised %r" % (label, k, e))
+                break
+            for d in W.diffs(orig, W.snapshot(loaded))[:6]:
+                attr = W.diff_attr(d)
+                if isinstance(d[2], bool) and isinstance(d[3], int) and not isinstance(d[3], bool) and d[2] == d[3]:
+                    self.ck.compare_one(d, "load", detail, label)          # the known type-fidelity finding of Part 1, same signature
+                    continue
+                ctx.violation("roundtrip:concurrent-save:%s:%s" % (fam, attr), dict(detail, diff=[d[0], d[1], repr(d[2])[:300], repr(d[3])[:300]]),
+                              "%s: %s differs between the saved graph and load #%d: saved %r, loaded %r" % (
+                                  label, attr, k, d[2] if not isinstance(d[2], (dict, list)) else "...", d[3] if not isinstance(d[3], (dict, list)) else "..."))
+        return run.widths
+
+    async def all_schedules(self, shape, variant, cap):
+        """Depth-first over the schedules of one shape (which parked database call completes next / the second caller
+        arrives now); at most `cap` of them.  Returns (schedules run, all of them?)."""
+        choices, done = [], 0
+        while choices is not None and done < cap:
+            widths = await self.one(shape, variant, choices)
+            done += 1
+            self.ctx.case(("concurrent-save", json.dumps(shape, sort_keys=True), variant, tuple(choices)), True)
+            choices = self.S.next_choices(choices, widths)
+        return done, choices is None
+
+    def verdicts(self):
+        """The batch verdict of Trace_PersistenceSave on every recorded trace."""
+        ctx = self.ctx
+        res = self.S.judge(ctx, [t for t, _, _ in self.pending])
+        for (trace, detail, classes), v in zip(self.pending, res):
+            fam = trace["shape"]["name"]
+            evs = trace["events"]
+            # a failing clause is printed for every state in which it is false; the state right after event k has l = k + 1:
+            # the offending events are those of the matching kind, else the first state in which the clause failed
+            kind_of = {"RefsResolved": "Issue", "TopReturnsWithId": "Return", "OneRow": "Complete"}
+            offending = []
+            for clause in sorted({c for _, c in v["bad"]}):
+                ls = sorted({l for l, c in v["bad"] if c == clause and 2 <= l <= len(evs) + 1})
+                hit = [l for l in ls if evs[l - 2]["n"] == kind_of.get(clause)
+                       and (clause != "RefsResolved" or any(i in (0, self.S.UNKNOWN) for _, i in evs[l - 2].get("refs", [])))
+                       and (clause != "TopReturnsWithId" or evs[l - 2].get("id") == 0 or any(i == 0 for _, i in evs[l - 2].get("pids", [])))]
+                offending += [(l, clause) for l in (hit or ls[:1])]
+            for l, clause in offending[:4]:
+                e = evs[l - 2]
+                if clause == "RefsResolved":
+                    nulls = [m for m, i in e.get("refs", []) if i in (0, self.S.UNKNOWN)] if e.get("n") == "Issue" else []
+                    if nulls:
+                        sig = "concurrent-save:RefsResolved:%s:%s->%s" % (fam, classes.get(e.get("node"), "?"), "+".join(sorted({classes.get(m, "?") for m in nulls})))
+                        what = "the row of %s %s was written with the ids %s: a referred entity had no persistent id yet (its save was still in flight)" % (
+                            classes.get(e.get("node"), "?"), e.get("node"), e.get("refs"))
+                    else:
+                        sig = "concurrent-save:RefsResolved:%s:stale-reference" % fam
+                        what = "a row in flight refers to an id that is not (any more) the persistent id of the referred entity (event %s)" % json.dumps(e)[:200]
+                elif clause == "TopReturnsWithId":
+                    node = trace["shape"]["tops"].get(e.get("t"))
+                    unsaved = sorted({classes.get(m, "?") for m, i in e.get("pids", []) if i == 0})
+                    if e.get("id") == 0:
+                        sig = "concurrent-save:TopReturnsWithId:%s:%s" % (fam, classes.get(node, "?"))
+                        what = "save() of %s %s returned to caller %s while the entity had no persistent id" % (classes.get(node, "?"), node, e.get("t"))
+                    else:
+                        sig = "concurrent-save:TopReturnsWithId:%s:%s:unsaved-%s" % (fam, classes.get(node, "?"), "+".join(unsaved))
+                        what = "save() of %s %s returned to caller %s while %s it saves along had no persistent id yet" % (classes.get(node, "?"), node, e.get("t"), unsaved)
+                else:
+                    sig = "concurrent-save:%s:%s:%s" % (clause, fam, classes.get(e.get("node"), "?"))
+                    what = "%s %s was written to the database more than once" % (classes.get(e.get("node"), "?"), e.get("node"))
+                ctx.violation(sig, dict(detail, clause=clause, event=e), "%s %s: %s" % (fam, json.dumps(trace["shape"]["reads"], sort_keys=True), what))
+            if not v["accepted"] and not v["bad"]:
+                k = v["prefix"]
+                e = evs[k] if k is not None and k < len(evs) else {"n": "?"}
+                sig = "concurrent-save:not-explained:%s:%s:%s" % (fam, e.get("n"), classes.get(e.get("node"), e.get("t", "?")))
+                ctx.violation(sig, dict(detail, event=e, prefix=k),
+                              "%s: no behaviour of the save protocol explains event %s of the recorded trace: %s" % (fam, k, json.dumps(e)[:300]))
+            ctx.count("save_traces_accepted" if v["accepted"] else "save_traces_not_accepted")
+        self.pending = []
+
+
+
 def run(ctx):
     ctx.rule = ("TLC enumerates workflow shapes (every step class x options x workflow class; ordered pairs of step classes chained / "
                 "side by side; sets of <= 2 token types) and all Save/Load/MutateLoaded histories over aliasing profiles; every selected "
@@ -313,6 +491,7 @@ def run(ctx):
                 "non-trivial = the shape has at least one step option or token beyond the bare defaults")
     cex = _model(ctx)
     shapes, relines = _generate(ctx)
+    saveshapes = _save_model(ctx)
     fam = {}
     for s in shapes:
         fam.setdefault(s["family"], []).append(s)
@@ -336,11 +515,27 @@ def run(ctx):
     ctx.require(len(repaths) > 100, "too few re-save histories: %d" % len(repaths))
     variants = ctx.pick(["combinator", "execute"], ["combinator", "execute", "loop-combinator"])
 
+    holder = {}
+
     async def main():
         from vh.sut import context as sctx
         sf = sctx.build(db=os.path.join(scratch, "c08.db"))
         ck = Checker(ctx, sf)
         try:
+            # Part 4: concurrent saves of shared entities, every schedule of every shape (capped per shape)
+            cs = holder["cs"] = ConcurrentSaver(ctx, sf)
+            await cs.setup()
+            try:
+                for i, sh in enumerate(saveshapes):
+                    fam = sh["name"]
+                    vs = [(i + ctx.seed + 4 * k) % 9 for k in range(ctx.pick(1, 3))] if fam == "tokens" else [0]
+                    for v in vs:
+                        done, complete = await cs.all_schedules(sh, v, ctx.pick(SAVE_CAP_QUICK, SAVE_CAP_THOROUGH))
+                        ctx.count("save_schedules:%s" % fam, done)
+                        ctx.count("save_shapes_all_schedules" if complete else "save_shapes_capped")
+                    ctx.count("save_shapes:%s" % fam)
+            finally:
+                cs.teardown()
             for vi, variant in enumerate(variants):
                 rs = Resaver(ctx, sf, variant)
                 # the histories are dealt out to the variants in turn (quick: <= 2 modifications, 2 variants; thorough: <= 3, 3 variants)
@@ -363,6 +558,7 @@ def run(ctx):
     res, err = aio.run(main(), timeout=ctx.pick(900, 3000))
     if err is not None:
         raise err
+    holder["cs"].verdicts()
     ctx.exhaustive = not ctx.quick
     ctx.sample({"defect_model_counterexamples": cex})
     ctx.sample(sel[len(sel) // 3])
@@ -379,11 +575,20 @@ def replay(ctx, data):
     d = data["detail"]
     W._init_persistable()
     scratch = ctx.scratch("db")
+    holder = {}
 
     async def main():
         from vh.sut import context as sctx
         sf = sctx.build(db=os.path.join(scratch, "c08.db"))
         try:
+            if d.get("concurrent"):
+                cs = holder["cs"] = ConcurrentSaver(ctx, sf)
+                await cs.setup()
+                try:
+                    await cs.one(d["shape"], d["variant"], d["choices"])
+                finally:
+                    cs.teardown()
+                return
             if d.get("resave"):
                 await Resaver(ctx, sf, d["variant"]).run([{"act": h[0], "args": h[1:]} for h in d["history"]])
                 return
@@ -394,3 +599,5 @@ def replay(ctx, data):
     res, err = aio.run(main(), timeout=600)
     if err is not None:
         raise err
+    if "cs" in holder:
+        holder["cs"].verdicts()
